@@ -179,7 +179,7 @@ def rejections(ctx, report, pbs, wbs):
                 if v[0] == "callres":
                     st = panics.apply_ok(an, st, v[1])
                 # the version value: parse -> first byte of the 16-byte window; write -> self.version
-                cands = [s for s in _syms(st) if s.endswith(".version@0.0") or s.startswith("elem(*s") and s.endswith("[0])")]
+                cands = [s for s in _syms(st) if re.search(r"\.version@(\d+\.\d+|entry)$", s) or s.startswith("elem(*s") and s.endswith("[0])")]
                 okv = any(entails(st.facts, an.iv, Lin.sym(s), 2) and entails(st.facts, an.iv, Lin.sym(s).scale(-1), 2) for s in cands)
                 good = good and okv
             if good:
